@@ -530,6 +530,15 @@ func main() {
 	}
 	pts := mc.PointAlphabet(maxK, R.Seed, nseed)
 	zs := mc.ZReps(R.Seed, nz)
+	if !R.Thorough() { // quick: the two upper single-limb scalings are exercised by C06 / C10 / C14 and by the thorough tier
+		var keep []mc.Val
+		for _, z := range zs {
+			if !strings.Contains(z.Label, "{0,0,") {
+				keep = append(keep, z)
+			}
+		}
+		zs = keep
+	}
 	if !R.Thorough() {
 		zs = []mc.Val{zs[0], zs[2], zs[5], zs[len(zs)-2]} // Z = 1, p-1, one seeded, and the representative stored as limbs {1,0,0,0}
 	}
